@@ -1043,7 +1043,7 @@ def _memo(op, a, make):
     two enumerations of the same mask would need induction."""
     c = ctx()
     memo = c.__dict__.setdefault("memo", {})
-    key = (op, id(a.buf), id(a.buf.fn), id(a.imap))
+    key = (op, id(a.buf.fn), id(a.imap))      # content identity: same content function through the same view
     hit = memo.get(key)
     if hit is not None:
         return hit[0]
@@ -1119,6 +1119,13 @@ def _index_1d(a, key):
         if key.kind == "f" and conc(key._shape[0]) == 0:
             key = _cast(key, "i", False) if False else ndarray.from_fn(lambda i: z3.IntVal(0), (0,), "i", "int")
     if isinstance(key, ndarray):
+        if key.ndim != 1 and key.kind in "iu":
+            # labels[positions] with an N-d array of positions: the result has the shape of the positions
+            fk, fa2, nt = key.snapshot(), a.snapshot(), zint(n)
+            ok = _forall_nd(key._shape, lambda *ix: z3.And(fk(*ix) >= -nt, fk(*ix) < nt))
+            if not ctx().decide(ok, "integer index array in bounds"):
+                raise IndexError("index out of bounds")
+            return ndarray.from_fn(lambda *ix: fa2(z3.If(fk(*ix) < 0, fk(*ix) + nt, fk(*ix))), key._shape, a.kind, a.elem)
         if key.ndim != 1:
             raise OutOfSubset("N-d index array")
         if key.kind == "b":
@@ -1361,9 +1368,13 @@ def _setitem(a, key, value):
         if buf.elem in ("int", "real") and (isinstance(t, str) or (z3.is_expr(t) and False)):
             raise ValueError("could not convert string to float")
         return to_z3(t) if isinstance(t, (bool, int)) and buf.elem != "py" else t
-    if isinstance(value, ndarray) and value.elem == "str" and buf.elem in ("int", "real"):
+    if buf.kind == "O":
+        # an object array holds anything: no conversion, and from now on its elements are of the assigned sort
+        if isinstance(value, ndarray) and value.elem != buf.elem and (key is Ellipsis or _is_full_slice(key)):
+            buf.elem = value.elem
+    elif isinstance(value, ndarray) and value.elem == "str" and buf.elem in ("int", "real"):
         raise ValueError("could not convert string to float")
-    if isinstance(value, (SymStr, str)) and buf.elem in ("int", "real"):
+    elif isinstance(value, (SymStr, str)) and buf.elem in ("int", "real"):
         raise ValueError("could not convert string to float")
     if buf.elem == "str" and not (isinstance(value, (SymStr,)) or (isinstance(value, ndarray) and value.elem == "str")):
         if buf.kind != "O":
@@ -2087,8 +2098,21 @@ def _reshape(a, shape):
     raise OutOfSubset("reshape (row-major model not loaded)")
 
 
-def diff(a, n=1, axis=-1):
+_NO_AXIS = object()
+
+
+def diff(a, n=1, axis=_NO_AXIS, **kw):
     a = asarray(a)
+    if axis is not _NO_AXIS:
+        if axis is None:
+            raise OutOfSubset("np.diff(axis=None)")
+        nn = conc_req(n)
+        def rule(shape, ax):
+            e = shape[ax]
+            ne = builtins.max(e - nn, 0) if isinstance(e, int) else z3.simplify(z3.If(zint(e) >= nn, zint(e) - nn, 0))
+            return tuple(ne if k == ax else s_ for k, s_ in enumerate(shape))
+        return _along_axis("diff", a, axis, dict(n=nn) if nn != 1 else {}, rule)
+    axis = -1
     if a.ndim == 1 and n == 1 and a.elem in ("int", "real"):
         f = a.snapshot()
         m = a._shape[0]
@@ -2112,11 +2136,160 @@ ma = _MA()
 integer_types = (int, SymInt)
 
 
-def sum(a, axis=None, **kw):
-    raise OutOfSubset("np.sum")
 
-def min(a, axis=None, **kw):
-    raise OutOfSubset("np.min")
 
-def max(a, axis=None, **kw):
-    raise OutOfSubset("np.max")
+# --------------------------------------------------------------------------
+# reductions, cumulative functions, diff along an axis -- RELATIVE TO NUMPY
+# --------------------------------------------------------------------------
+# The properties say "equals NumPy's f along that axis".  These functions are therefore uninterpreted: np_f(content, axis,
+# kwargs) is a fresh function symbol, memoized on the array CONTENT, the axis and the keyword arguments, with only its shape
+# law.  The same call on the same content gives the same symbols (on the code side and on the spec side); a different function,
+# array, axis or keyword gives different symbols, about which nothing can be proved.
+
+_REDUCERS = {}          # name -> (result elem for real input, keeps_int)
+
+
+def _np_name(name):
+    return name
+
+
+def _result_elem(name, a):
+    base = name[3:] if name.startswith("nan") else name
+    if base in ("all", "any"):
+        return "b", "bool"
+    if base in ("argmin", "argmax"):
+        return "i", "int"
+    if base in ("mean", "var", "std", "median"):
+        return "f", "real"
+    if a.elem == "int":
+        return "i", "int"
+    if a.elem == "bool":
+        return ("i", "int") if base in ("sum", "prod", "cumsum", "cumprod") else ("b", "bool")
+    return "f", "real"
+
+
+def _along_axis(name, a, axis, kw, shape_rule):
+    a = asarray(a)
+    if a.elem in ("str", "py"):
+        raise TypeError("cannot perform %s on this dtype" % name)
+    kw = {k: v for k, v in kw.items() if v is not None and k not in ("out",)}
+    for k, v in kw.items():
+        if not isinstance(v, (int, float, bool, str)):
+            raise OutOfSubset("np.%s(%s=%r)" % (name, k, v))
+    c = ctx()
+    c.lib("np.%s (uninterpreted, relative to NumPy)" % name)
+    kind, elem = _result_elem(name, a)
+    srt = {"real": z3.RealSort(), "int": z3.IntSort(), "bool": z3.BoolSort()}[elem]
+    if axis is not None:
+        axis = _norm_axis(axis, a.ndim)
+    out_shape = shape_rule(a._shape, axis)
+    memo = c.__dict__.setdefault("memo", {})
+    key = ("np." + name, id(a.buf.fn), id(a.imap), axis, tuple(sorted(kw.items())))
+    hit = memo.get(key)
+    if hit is None:
+        nm = fresh_name("np_" + name)
+        if out_shape:
+            F = z3.Function(nm, *([z3.IntSort()] * len(out_shape) + [srt]))
+            content = (lambda *i, F=F: F(*[zint(k) for k in i]))      # ONE closure per call signature: results of repeated
+        else:                                                          # identical calls have identical content identity
+            F = z3.Const(nm, srt)
+            content = None
+        hit = (F, a, a.buf.fn, a.imap, content)
+        memo[key] = hit
+    F, content = hit[0], hit[4]
+    base = name[3:] if name.startswith("nan") else name
+    if base in ("argmin", "argmax") and axis is not None:
+        # range law: the positions returned along an axis lie in [0, extent of that axis)
+        ext = zint(a._shape[axis])
+        if out_shape:
+            c.add(_forall_nd(out_shape, lambda *ix: z3.And(F(*ix) >= 0, F(*ix) < ext)))
+        else:
+            c.add(F >= 0, F < ext)
+    if not out_shape:
+        return _wrap_elem(F, elem)           # NumPy returns a scalar, not a 0-d array
+    return ndarray.from_fn(content, out_shape, kind, elem)
+
+
+def _drop(shape, axis):
+    return () if axis is None else tuple(s_ for k, s_ in enumerate(shape) if k != axis)
+
+
+def _keep(shape, axis):
+    if axis is None:
+        n = 1
+        for s_ in shape:
+            n = n * (s_ if isinstance(s_, int) else zint(s_))
+        return (z3.simplify(n) if z3.is_expr(n) else n,)
+    return tuple(shape)
+
+
+def _make_reducer(name, rule):
+    def f(a, axis=None, **kw):
+        if kw.pop("keepdims", False):
+            raise OutOfSubset("keepdims")
+        return _along_axis(name, a, axis, kw, rule)
+    f.__name__ = name
+    return f
+
+
+for _n in ("sum", "prod", "mean", "var", "std", "min", "max", "ptp", "all", "any", "median", "argmin", "argmax",
+           "nansum", "nanprod", "nanmean", "nanvar", "nanstd", "nanmin", "nanmax", "nanmedian", "nanargmin", "nanargmax"):
+    if _n in ("argmin", "argmax", "all", "any"):
+        continue
+    globals()[_n] = _make_reducer(_n, _drop)
+for _n in ("cumsum", "cumprod", "nancumsum", "nancumprod"):
+    globals()[_n] = _make_reducer(_n, _keep)
+amin, amax = min, max
+
+_argext_1d = _arg_extremum
+_all_bool, _any_bool = all, any
+
+
+def _nd_or_special(name, special):
+    red = _make_reducer(name, _drop)
+    def f(a, axis=None, **kw):
+        x = a if not isinstance(a, (list, tuple)) or builtins.all(isinstance(t, (bool, SymBool)) for t in a) else a
+        arr = asarray(a) if not isinstance(a, (bool, SymBool)) and not (isinstance(a, (list, tuple)) and builtins.all(isinstance(t, (bool, SymBool, ndarray)) for t in a)) else None
+        if arr is not None and arr.ndim >= 1 and axis is not None and arr.ndim > 1:
+            return red(arr, axis=axis, **kw)
+        return special(a, axis=axis, **kw)
+    f.__name__ = name
+    return f
+
+
+def _argmin_nd(a, axis=None, **kw):
+    a = asarray(a)
+    if a.ndim == 1 and axis in (None, 0, -1):
+        return _argext_1d(a, axis, True)
+    return _make_reducer("argmin", _drop)(a, axis=axis, **kw)
+
+
+def _argmax_nd(a, axis=None, **kw):
+    a = asarray(a)
+    if a.ndim == 1 and axis in (None, 0, -1):
+        return _argext_1d(a, axis, False)
+    return _make_reducer("argmax", _drop)(a, axis=axis, **kw)
+
+
+_argmin_nd.__name__, _argmax_nd.__name__ = "argmin", "argmax"
+argmin, argmax = _argmin_nd, _argmax_nd
+
+
+def _all_nd(a, axis=None, **kw):
+    if isinstance(a, ndarray) and (axis is not None or a.kind != "b"):
+        return _make_reducer("all", _drop)(a, axis=axis, **kw)
+    return _all_bool(a, axis=axis, **kw)
+
+
+def _any_nd(a, axis=None, **kw):
+    if isinstance(a, ndarray) and (axis is not None or a.kind != "b"):
+        return _make_reducer("any", _drop)(a, axis=axis, **kw)
+    return _any_bool(a, axis=axis, **kw)
+
+
+_all_nd.__name__, _any_nd.__name__ = "all", "any"
+all, any = _all_nd, _any_nd
+
+
+def unravel_index(index, shape):
+    raise OutOfSubset("np.unravel_index")
